@@ -123,11 +123,65 @@ type rig struct {
 
 	recording bool
 	calls     []kit.Call
+
+	// the second node: another app-structs instance on the SAME backend with its own istoragecache (cached
+	// backend) and its own PLog cache - another writer on the shared storage, underneath the first node's caches
+	clock      *kit.Clock
+	app2       istructs.IAppStructs
+	top2       *kit.Wrap
+	recording2 bool
+	calls2     []kit.Call
+}
+
+func (r *rig) newApp(st istorage.IAppStorage) (istructs.IAppStructs, error) {
+	cfgs := make(istructsmem.AppConfigsType, 1)
+	cfg := cfgs.AddBuiltInAppConfig(appName, buildAppDef())
+	cfg.SetNumAppWorkspaces(istructs.DefaultNumAppWorkspaces)
+	cfg.Resources.Add(istructsmem.NewCommandFunction(qnCmd, istructsmem.NullCommandExec))
+	p := istructsmem.Provide(cfgs, payloads.ProvideIAppTokensFactory(itokensjwt.TestTokensJWT()),
+		&fixedProvider{st: st}, isequencer.SequencesTrustLevel(r.trust), nil)
+	return p.BuiltIn(appName)
+}
+
+// node2 starts the second node on first use
+func (r *rig) node2() (istructs.IAppStructs, error) {
+	if r.app2 != nil {
+		return r.app2, nil
+	}
+	mid2 := r.bottom
+	if r.backend == "cached" {
+		c, err := kit.NewCached(r.bottom, r.clock, 64<<20)
+		if err != nil {
+			return nil, err
+		}
+		mid2 = c
+	}
+	r.top2 = &kit.Wrap{Inner: mid2}
+	r.top2.After = func(c *kit.Call) {
+		if r.recording2 {
+			r.calls2 = append(r.calls2, *c)
+		}
+	}
+	app, err := r.newApp(r.top2)
+	if err != nil {
+		return nil, err
+	}
+	r.app2 = app
+	return app, nil
+}
+
+// record2 runs f with recording of the second node's storage calls on
+func (r *rig) record2(f func()) []kit.Call {
+	r.calls2 = nil
+	r.recording2 = true
+	defer func() { r.recording2 = false }()
+	f()
+	return r.calls2
 }
 
 func newRig(backend string, trust int) (*rig, error) {
 	clock := kit.NewClock()
-	r := &rig{backend: backend, trust: trust}
+	r := &rig{backend: backend, trust: trust, clock: clock}
 	inner := backend
 	if backend == "cached" {
 		inner = "mem"
@@ -161,13 +215,7 @@ func newRig(backend string, trust int) (*rig, error) {
 // restart: a new app-structs provider (fresh configuration, empty PLog cache) over the same
 // storage stack, as after a process restart
 func (r *rig) restart() error {
-	cfgs := make(istructsmem.AppConfigsType, 1)
-	cfg := cfgs.AddBuiltInAppConfig(appName, buildAppDef())
-	cfg.SetNumAppWorkspaces(istructs.DefaultNumAppWorkspaces)
-	cfg.Resources.Add(istructsmem.NewCommandFunction(qnCmd, istructsmem.NullCommandExec))
-	p := istructsmem.Provide(cfgs, payloads.ProvideIAppTokensFactory(itokensjwt.TestTokensJWT()),
-		&fixedProvider{st: r.top}, isequencer.SequencesTrustLevel(r.trust), nil)
-	app, err := p.BuiltIn(appName)
+	app, err := r.newApp(r.top)
 	if err != nil {
 		return err
 	}
